@@ -10,7 +10,8 @@ from entity_query_language import rule_mode, infer, MultipleSolutionFound, NoSol
 
 ASSUMPTIONS = [
     "the query/rule is built in its own proper mode; only evaluate() is called under the ambient mode",
-    "ambient modes: none, `with symbolic_mode():`, `with rule_mode():`; each evaluation uses a freshly built query",
+    "ambient modes: none, `with symbolic_mode():`, `with rule_mode():`, `with rule_mode(query):` and `with query:` of the "
+    "evaluated query itself; each evaluation uses a freshly built query",
 ]
 BOUNDS = {"quick": dict(domain_objects=3, quantifiers="an, the, infer, Add-conclusion", predicates="@predicate function, Predicate "
                         "subclass, HasType, comparison, rule-head construction"),
@@ -18,7 +19,7 @@ BOUNDS = {"quick": dict(domain_objects=3, quantifiers="an, the, infer, Add-concl
 LIMITS = {"quick": dict(max_paths=8000, max_wall=90), "thorough": dict(max_paths=60000, max_wall=400)}
 WALL_BUDGET = {"quick": 420, "thorough": 3000}
 
-AMBIENTS = ["none", "query", "rule"]
+AMBIENTS = ["none", "query", "rule", "rule_of_query", "with_query"]
 
 
 class _Null:
@@ -29,11 +30,15 @@ class _Null:
         return False
 
 
-def ambient(name):
+def ambient(name, q=None):
     if name == "none":
         return _Null()
     if name == "query":
         return symbolic_mode()
+    if name == "rule_of_query":      # the documented rule-tree block of the very query that is evaluated
+        return rule_mode(q)
+    if name == "with_query":
+        return q
     return rule_mode()
 
 
@@ -90,7 +95,7 @@ class C09(Case):
                 S.CALLS[k] = 0
             try:
                 q = self._build(items)
-                with ambient(amb):
+                with ambient(amb, q):
                     if sp["quant"] == "the":
                         try:
                             r = q.evaluate()
